@@ -152,3 +152,111 @@ theorem C19_original_unchanged (c : ECfg V) (ins outs : List Node) (vals : List 
   ⟨rfl, rfl⟩
 
 end VM
+
+namespace VM
+open TM
+variable {V : Type} [PyVal V]
+
+/-! ### `needed` is dependency-closed (so the closure hypothesis of `C19_compose_computes_outputs` always holds) -/
+
+/-- in the visiting order `l`, no node refers to a node visited before it -/
+def Back (c : ECfg V) (l : List Node) : Prop :=
+  ∀ pre m post, l = pre ++ m :: post → ∀ r ∈ (c.recOf m).refs, r.src ∉ pre
+
+theorem back_tail {c : ECfg V} {a : Node} {rest : List Node} (h : Back c (a :: rest)) : Back c rest := by
+  intro pre m post hs r hr hmem
+  exact h (a :: pre) m post (by rw [hs]; rfl) r hr (List.mem_cons_of_mem _ hmem)
+
+/-- whatever the pass adds comes from the references of a visited node that is not an input -/
+theorem neededPass_source (c : ECfg V) (ins : List Node) : ∀ (l acc : List Node) (x : Node),
+    x ∈ neededPass c ins l acc → x ∈ acc ∨ ∃ m ∈ l, ∃ r ∈ (c.recOf m).refs, r.src = x := by
+  intro l
+  induction l with
+  | nil => intro acc x h; exact Or.inl h
+  | cons n rest ih =>
+    intro acc x h
+    simp only [neededPass] at h
+    split at h
+    · rcases ih _ x h with h1 | ⟨m, hm, r, hr, hx⟩
+      · rcases List.mem_append.mp h1 with h2 | h2
+        · exact Or.inl h2
+        · obtain ⟨h3, _⟩ := List.mem_filter.mp h2
+          obtain ⟨r, hr, hx⟩ := List.mem_map.mp h3
+          exact Or.inr ⟨n, by simp, r, hr, hx⟩
+      · exact Or.inr ⟨m, by simp [hm], r, hr, hx⟩
+    · rcases ih _ x h with h1 | ⟨m, hm, r, hr, hx⟩
+      · exact Or.inl h1
+      · exact Or.inr ⟨m, by simp [hm], r, hr, hx⟩
+
+theorem neededPass_closed (c : ECfg V) (ins : List Node) : ∀ (l : List Node), Back c l → ∀ (acc : List Node) (n : Node),
+    n ∈ l → ins.contains n = false → n ∈ neededPass c ins l acc →
+    ∀ r ∈ (c.recOf n).refs, r.src ∈ neededPass c ins l acc := by
+  intro l
+  induction l with
+  | nil => intro _ acc n hn; simp at hn
+  | cons a rest ih =>
+    intro hb acc n hn hni hres r hr
+    rcases List.mem_cons.mp hn with rfl | hn'
+    · -- the node being visited: it must already be in `acc`
+      have hacc : n ∈ acc := by
+        by_cases h : n ∈ acc
+        · exact h
+        · have hcond : (acc.contains n && !ins.contains n) = false := by simp [h]
+          have hres' : n ∈ neededPass c ins rest acc := by
+            have := hres; simp only [neededPass, hcond] at this; exact this
+          rcases neededPass_source c ins rest acc n hres' with h1 | ⟨m, hm, r', hr', hx⟩
+          · exact absurd h1 h
+          · obtain ⟨pre, post, hsplit⟩ := List.append_of_mem hm
+            have := hb (n :: pre) m post (by rw [hsplit]; rfl) r' hr'
+            rw [hx] at this
+            exact absurd (by simp) this
+      have hni' : n ∉ ins := by simpa using hni
+      have hcond : (acc.contains n && !ins.contains n) = true := by simp [hacc, hni']
+      simp only [neededPass, hcond, if_true]
+      apply neededPass_mono
+      by_cases h : r.src ∈ acc
+      · exact List.mem_append_left _ h
+      · apply List.mem_append_right
+        exact List.mem_filter.mpr ⟨List.mem_map.mpr ⟨r, hr, rfl⟩, by simpa using h⟩
+    · have hb' := back_tail hb
+      simp only [neededPass] at hres ⊢
+      split
+      · rename_i hc; rw [if_pos hc] at hres; exact ih hb' _ n hn' hni hres r hr
+      · rename_i hc; rw [if_neg hc] at hres; exact ih hb' _ n hn' hni hres r hr
+
+theorem back_of_wf (c : ECfg V) (hwf : WF c) : Back c c.nodes.reverse := by
+  intro pre m post hs r hr hmem
+  have hn : c.nodes = post.reverse ++ m :: pre.reverse := by
+    have := congrArg List.reverse hs
+    simpa using this
+  have hin : r.src ∈ c.nodes := by rw [hn]; simp [hmem]
+  have hdone := hwf.2 post.reverse m pre.reverse hn r hr hin
+  have hnd := hwf.1
+  rw [hn] at hnd
+  have hdisj := (List.nodup_append.mp hnd).2.2 r.src hdone r.src (by simp [hmem])
+  exact hdisj rfl
+
+/-- the closure hypothesis of `C19_compose_computes_outputs` holds for every well-formed table -/
+theorem needed_closed (c : ECfg V) (hwf : WF c) (ins outs : List Node) (vals : List V) :
+    isClosedB (withInputs c ins vals) (fun n => (needed c ins outs).contains n) = true := by
+  simp only [isClosedB, List.all_eq_true, Bool.or_eq_true, Bool.not_eq_true', List.contains_eq_mem,
+    decide_eq_false_iff_not, decide_eq_true_eq]
+  intro n hn
+  by_cases hnd : n ∈ needed c ins outs
+  · right
+    intro r hr
+    right
+    have hn' : n ∈ c.nodes ∧ ins.contains n = false := by
+      have : n ∈ c.nodes.filter (fun x => !ins.contains x) := hn
+      simpa using List.mem_filter.mp this
+    exact neededPass_closed c ins c.nodes.reverse (back_of_wf c hwf) outs n (by simp [hn'.1]) hn'.2 hnd r hr
+  · exact Or.inl hnd
+
+/-- **C19** (model level, full): for every well-formed table, the composed table returns for every
+    output exactly what the original pipeline computes if the input nodes had produced the supplied values. -/
+theorem C19_compose_correct (c : ECfg V) (hwf : WF c) (ins outs : List Node) (vals : List V)
+    (o : Node) (ho : o ∈ outs) :
+    den (composeCfg c ins outs vals) o = den (withInputs c ins vals) o :=
+  C19_compose_computes_outputs c ins outs vals (needed_closed c hwf ins outs vals) o ho
+
+end VM
